@@ -897,8 +897,9 @@ class XsdElement(XsdComponent, ParticleMixin,
                 if not counter.enabled:
                     continue
 
-            if counter.elements is None:
-                # Apply selector on Element ancestor for obtain the selected elements
+            if counter.elements is None or context.source.is_lazy():
+                # Apply selector on Element ancestor for obtain the selected elements.
+                # The tree of a lazy resource is still growing: select again each time.
                 root_node = context.source.get_xpath_node(counter.elem)
                 xpath_context = XPathContext(root_node)
                 assert identity.selector is not None
